@@ -61,6 +61,8 @@ pub fn run() {
         let procs = a.get("procs").map(|s| s == "1").unwrap_or(false);
         let mode = a.get("mode").cloned().unwrap_or_else(|| "eager".into());
         let delay_us: i64 = a.get("delay_us").map(|s| s.parse().unwrap()).unwrap_or(0);
+        // late=1: the receiver only starts once every sender has finished and dropped its handle
+        let late = a.get("late").map(|s| s == "1").unwrap_or(false);
         let plans: Vec<Vec<usize>> = a["msgs"]
             .split(';')
             .map(|p| p.split(',').filter(|x| !x.is_empty()).map(|x| x.parse().unwrap()).collect())
@@ -93,6 +95,17 @@ pub fn run() {
         }
         drop(tx);
         drop(stx);
+        let mut pids = pids;
+        let mut handles = handles;
+        if late {
+            for h in handles.drain(..) {
+                let _ = h.join();
+            }
+            for pid in pids.drain(..) {
+                let mut st = 0;
+                unsafe { libc::waitpid(pid, &mut st, 0) };
+            }
+        }
         // receive
         let mut got: Vec<(u64, u64, u64, bool, u64)> = Vec::new();
         let mut closed = false;
@@ -137,12 +150,19 @@ pub fn run() {
                     std::thread::sleep(std::time::Duration::from_millis(30));
                 }
                 let poll = mode == "poll";
+                let timed = mode == "timeout";
                 let res = with_watchdog(30_000, move || {
                     let mut got = Vec::new();
                     let mut closed = false;
                     let mut errors = Vec::new();
                     loop {
-                        let r = if poll { rx.try_recv() } else { rx.recv() };
+                        let r = if poll {
+                            rx.try_recv()
+                        } else if timed {
+                            rx.try_recv_timeout(std::time::Duration::from_millis(20))
+                        } else {
+                            rx.recv()
+                        };
                         match r {
                             Ok((d, _, _)) => {
                                 let (s, q, l, ok) = untag(&d);
